@@ -1,0 +1,29 @@
+//go:build verif
+// +build verif
+
+package network
+
+import (
+	"strconv"
+
+	"com.tuntun.rangers/node/src/common"
+	"com.tuntun.rangers/node/src/middleware/log"
+)
+
+// Verification hooks (build tag verif only): the peer message handler is an admission entry
+// point of the transaction pool; these thin exports let a harness deliver a marshalled peer
+// message to it without a connection.
+func VerifNewWorkerConn() *WorkerConn {
+	if bizLogger == nil {
+		bizLogger = log.GetLoggerByIndex(log.P2PBizLogConfig, strconv.Itoa(common.InstanceIndex))
+	}
+	w := &WorkerConn{}
+	w.logger = log.GetLoggerByIndex(log.P2PLogConfig, strconv.Itoa(common.InstanceIndex))
+	return w
+}
+
+func (workerConn *WorkerConn) VerifHandleMessage(data []byte, from string) {
+	workerConn.handleMessage(data, from)
+}
+
+func VerifMarshalMessage(m Message) ([]byte, error) { return marshalMessage(m) }
